@@ -2706,6 +2706,144 @@ fn cmp_text(o: std::cmp::Ordering) -> String {
 
 const CMP_TPL: &str = "{{ a < b }}/{{ a <= b }}/{{ a > b }}/{{ a >= b }}/{{ a == b }}/{{ a != b }}";
 
+
+/// small value language for the array comparison matrix
+#[derive(Clone, Debug)]
+enum RV {
+    I(i64),
+    F(f64),
+    S(&'static str),
+    B(bool),
+    N,
+    M,
+    A(Vec<RV>),
+}
+
+fn rv_value(v: &RV) -> Value {
+    match v {
+        RV::I(i) => Value::from(*i),
+        RV::F(f) => Value::from(*f),
+        RV::S(s) => Value::from(*s),
+        RV::B(b2) => Value::from(*b2),
+        RV::N => Value::none(),
+        RV::M => {
+            let mut m = tera::Map::new();
+            m.insert("k".into(), Value::from(1));
+            Value::from(m)
+        }
+        RV::A(xs) => Value::from(xs.iter().map(rv_value).collect::<Vec<_>>()),
+    }
+}
+
+/// The documented order: numbers by value, strings, bools among themselves; arrays element by
+/// element (the first differing pair decides, then the length); everything else — different kinds,
+/// maps, none — has no order (None = the comparison must be an error)
+fn rv_cmp(a: &RV, b2: &RV) -> Option<std::cmp::Ordering> {
+    use std::cmp::Ordering::Equal;
+    match (a, b2) {
+        (RV::I(x), RV::I(y)) => Some(x.cmp(y)),
+        (RV::I(x), RV::F(y)) => (*x as f64).partial_cmp(y),
+        (RV::F(x), RV::I(y)) => x.partial_cmp(&(*y as f64)),
+        (RV::F(x), RV::F(y)) => x.partial_cmp(y),
+        (RV::S(x), RV::S(y)) => Some(x.cmp(y)),
+        (RV::B(x), RV::B(y)) => Some(x.cmp(y)),
+        // two nones are the same value (theorem cmp_kind_table: same scalar kind always compares)
+        (RV::N, RV::N) => Some(Equal),
+        (RV::A(xs), RV::A(ys)) => {
+            for (x, y) in xs.iter().zip(ys.iter()) {
+                match rv_cmp(x, y)? {
+                    Equal => continue,
+                    o => return Some(o),
+                }
+            }
+            Some(xs.len().cmp(&ys.len()))
+        }
+        _ => None,
+    }
+}
+
+fn rv_eq(a: &RV, b2: &RV) -> bool {
+    match (a, b2) {
+        (RV::I(x), RV::I(y)) => x == y,
+        (RV::I(x), RV::F(y)) | (RV::F(y), RV::I(x)) => (*x as f64) == *y,
+        (RV::F(x), RV::F(y)) => x == y,
+        (RV::S(x), RV::S(y)) => x == y,
+        (RV::B(x), RV::B(y)) => x == y,
+        (RV::N, RV::N) | (RV::M, RV::M) => true,
+        (RV::A(xs), RV::A(ys)) => xs.len() == ys.len() && xs.iter().zip(ys.iter()).all(|(x, y)| rv_eq(x, y)),
+        _ => false,
+    }
+}
+
+/// arrays (and nested arrays): ordering by the first differing pair, an error when that pair has no
+/// order, equal prefixes decided by length; `==` / `!=` never fail.  And distinct u128 values above
+/// i128::MAX are different values for `==`, `!=`, `in`.
+fn oracle_value_matrix_arrays(out: &mut Vec<Check>) {
+    use RV::*;
+    let arrays: Vec<RV> = vec![
+        A(vec![]),
+        A(vec![I(1)]),
+        A(vec![I(2)]),
+        A(vec![F(1.5)]),
+        A(vec![S("a")]),
+        A(vec![S("b")]),
+        A(vec![B(true)]),
+        A(vec![N]),
+        A(vec![M]),
+        A(vec![I(1), I(2)]),
+        A(vec![I(1), S("a")]),
+        A(vec![I(1), N]),
+        A(vec![I(1), M]),
+        A(vec![I(2), I(5)]),
+        A(vec![I(1), I(2), S("z")]),
+        A(vec![A(vec![I(1)])]),
+        A(vec![A(vec![S("a")])]),
+        A(vec![A(vec![I(1)]), I(2)]),
+        A(vec![A(vec![I(1)]), S("x")]),
+        A(vec![A(vec![I(1), I(2)])]),
+        A(vec![A(vec![]), I(1)]),
+        A(vec![S("a"), I(1)]),
+        A(vec![S("a"), S("b")]),
+    ];
+    for a in &arrays {
+        for b2 in &arrays {
+            let ctx = vec![("a".to_string(), rv_value(a)), ("b".to_string(), rv_value(b2))];
+            let e = match rv_cmp(a, b2) {
+                Some(o) => {
+                    use std::cmp::Ordering::*;
+                    Expect::Text(format!("{}/{}/{}/{}", o == Less, o != Greater, o == Greater, o != Less))
+                }
+                None => Expect::AnyErr,
+            };
+            out.push(Check { oracle: "value_matrix.array_ordering", case: simple_case("oracle.value_matrix", "{{ a < b }}/{{ a <= b }}/{{ a > b }}/{{ a >= b }}", ctx.clone(), vec![]), expect: e });
+            let eq = rv_eq(a, b2);
+            out.push(Check { oracle: "value_matrix.array_ordering", case: simple_case("oracle.value_matrix", "{{ a == b }}/{{ a != b }}/{{ a in [b] }}", ctx, vec![]), expect: Expect::Text(format!("{eq}/{}/{eq}", !eq)) });
+        }
+    }
+    for (src, e) in [
+        ("{{ [1] < [\"a\"] }}", None),
+        ("{{ [1, 2] < [1, \"a\"] }}", None),
+        ("{{ [[1]] >= [[\"a\"]] }}", None),
+        ("{{ [1, 2] > [1] }}/{{ [1] < [1, \"a\"] }}/{{ [1, \"a\"] < [2, 5] }}/{{ [] < [none] }}", Some("true/true/true/true")),
+        ("{{ [1] == [\"a\"] }}/{{ [1] != [\"a\"] }}/{{ [[1]] == [[1.0]] }}", Some("false/true/true")),
+    ] {
+        out.push(Check { oracle: "value_matrix.array_ordering", case: simple_case("oracle.value_matrix", src, vec![], vec![]), expect: match e { Some(t) => Expect::Text(t.into()), None => Expect::AnyErr } });
+    }
+    // ---- integers above i128::MAX are still distinct values
+    let big: Vec<u128> = vec![u128::MAX, u128::MAX - 1, 1u128 << 127, (1u128 << 127) + 1, (1u128 << 127) - 1, 1u128 << 64, 0];
+    for x in &big {
+        for y in &big {
+            let ctx = vec![("a".to_string(), Value::from(*x)), ("b".to_string(), Value::from(*y)), ("l".to_string(), Value::from(vec![Value::from(7u64), Value::from(*y)]))];
+            out.push(Check { oracle: "value_matrix.exact_comparison", case: simple_case("oracle.value_matrix", CMP_TPL, ctx.clone(), vec![]), expect: Expect::Text(cmp_text(x.cmp(y))) });
+            out.push(Check {
+                oracle: "value_matrix.exact_comparison",
+                case: simple_case("oracle.value_matrix", "{{ a in l }}/{{ a not in l }}/{{ a in [b] }}/{{ [a] == [b] }}/{{ [a] != [b] }}/{{ a in [a, b] }}", ctx, vec![]),
+                expect: Expect::Text(format!("{e}/{n}/{e}/{e}/{n}/true", e = x == y, n = x != y)),
+            });
+        }
+    }
+}
+
 /// Value-level matrix: exact integer arithmetic, comparison by exact value, index / slice operand
 /// kinds, map lookup and membership by value across encodings — expectations computed here from the
 /// rule (exact arithmetic on i128/u128, never from the engine or the model)
@@ -3673,6 +3811,7 @@ pub fn run(prop: &str) {
         oracle_undefined_matrix(&mut fixed);
         if c02 {
             oracle_value_matrix(&mut rng, &env, &mut fixed);
+            oracle_value_matrix_arrays(&mut fixed);
         }
     }
     report.count_n("oracle.fixed_checks", fixed.len() as u64);
